@@ -18,12 +18,13 @@ pub struct Ctx {
     pub states: u64,
     pub transitions: u64,
     pub all_closed: bool,
+    pub fresh_process: bool,
 }
 
 impl Ctx {
     pub fn new(prop: &str, tier: &str, seed: u64, level: &str) -> Ctx {
         let n = std::thread::available_parallelism().map(|n| n.get()).unwrap_or(8).min(16);
-        Ctx { run: Run::new(prop, tier, seed, level), pool: Pool::new(n, vec![], vec![]), seed, runs: Vec::new(), states: 0, transitions: 0, all_closed: true }
+        Ctx { run: Run::new(prop, tier, seed, level), pool: Pool::new(n, vec![], vec![]), seed, runs: Vec::new(), states: 0, transitions: 0, all_closed: true, fresh_process: false }
     }
     pub fn thorough(&self) -> bool {
         self.run.thorough()
@@ -162,6 +163,28 @@ pub fn run_seed(payload: &[u8]) -> Vec<u8> {
     b.0
 }
 
+/// single-process replay of a scripted image: run the script with the real code, decode the result
+pub fn replay_seed(job: &[u8]) -> i32 {
+    let b = run_seed(&job[1..]);
+    let mut r = Rd::new(&b);
+    if r.u8() != 0 {
+        println!("REPLAY VIOLATION: the script fails: {}", r.string());
+        return 1;
+    }
+    let _ = r.string();
+    let img = Image::unpack(&r.vec());
+    let d = crate::decoder::decode(&img.htx, &img.key, &img.val);
+    if d.errors.is_empty() {
+        println!("REPLAY: the script runs and the files decode ({} entries); compare with the story of the replay file", d.contents.len());
+        0
+    } else {
+        for (c, m) in &d.errors {
+            println!("REPLAY VIOLATION [decode:{}]: {m}", c.name());
+        }
+        1
+    }
+}
+
 pub fn build_image(pool: &Pool, kt: KtId, p: &Params, steps: &[Step]) -> Result<Image, String> {
     match pool.run_isolated(&seed_job(kt, p, steps)) {
         JobResult::Done(b) => {
@@ -202,7 +225,7 @@ pub fn run_closure(ctx: &mut Ctx, label: &str, cfg: &ACfg, starts: Vec<Start>, m
         return None;
     }
     let t0 = ctx.run.elapsed();
-    let caps = Caps { max_states, max_secs: t0 + max_secs };
+    let caps = Caps { max_states, max_secs: t0 + max_secs, fresh_process: ctx.fresh_process };
     let st = bfs(cfg, &starts, &caps, &mut ctx.pool, &mut ctx.run);
     ctx.states += st.states as u64;
     ctx.transitions += st.transitions;
@@ -338,6 +361,18 @@ pub fn c01(tier: &str, seed: u64) -> i32 {
 pub fn c02(tier: &str, seed: u64) -> i32 {
     let mut ctx = Ctx::new("C02", tier, seed, "model_checking");
     standard_runs(&mut ctx, "C02", O_API | O_REOPEN | O_ITER | O_ALT_PARAMS, 0, 0, true, &KtId::ALL, 200_000);
+    if ctx.run.violations.is_empty() {
+        // the same small closure once more with every state expanded by a freshly spawned process
+        let alphas = alphas_small();
+        let a = &alphas[0];
+        let mut cfg = make_cfg("C02", KtId::Bytes, 8, a, seed);
+        cfg.oracles = O_API | O_REOPEN | O_ITER | O_ALT_PARAMS;
+        cfg.params = reopen_params(cfg.params[0]);
+        let starts: Vec<Start> = empty_start(&mut ctx, &cfg).into_iter().collect();
+        ctx.fresh_process = true;
+        run_closure(&mut ctx, &format!("{} [bytes] every state expanded in a freshly spawned process", a.label), &cfg, starts, 200_000, 120.0);
+        ctx.fresh_process = false;
+    }
     crate::engine_b::c02_live(&mut ctx);
     let rule = format!("{RULE_A}; every transition is a clean close + re-open; on every state the map is additionally re-opened under every other parameter set of the list and get of every key, absent keys, len and the full iteration multiset are compared with the model; consecutive transitions run in different worker processes; non-trivial = re-open sessions under a different parameter set");
     ctx.finish_model_checking(&rule, &["reopen_sessions"])
@@ -359,6 +394,119 @@ pub fn alphas_large() -> Vec<Alpha> {
     ]
 }
 
+/// C06: exhaustive sweep of the first-fit decision on the shared large free list: every free-list
+/// shape of 1..=4 slots over three slot sizes (all orders, with repetition) x every request size.
+/// The list is built by the real code (put the fillers, delete them in the order that yields the
+/// shape), then one put of the request size is made; both images are decoded.
+pub fn c06_first_fit_sweep(ctx: &mut Ctx) {
+    let seed = ctx.seed;
+    let kt = KtId::Bytes;
+    let p = Params::buckets(8);
+    let sizes: [u64; 3] = [1000, 2000, 3000]; // slots of 1152, 2176, 3072 bytes
+    let requests: [u64; 5] = [500, 1000, 2000, 3000, 4000];
+    let mut shapes: Vec<Vec<usize>> = Vec::new();
+    let mut level: Vec<Vec<usize>> = vec![vec![]];
+    for _ in 0..4 {
+        let mut next = Vec::new();
+        for s in &level {
+            for x in 0..3 {
+                let mut q = s.clone();
+                q.push(x);
+                next.push(q);
+            }
+        }
+        shapes.extend(next.iter().cloned());
+        level = next;
+    }
+    let fk = |i: usize| format!("filler-{i}").into_bytes();
+    let mut jobs: Vec<Vec<u8>> = Vec::new();
+    let mut cases: Vec<(Vec<usize>, u64)> = Vec::new();
+    for shape in &shapes {
+        // list order (head first) = shape; the head is the slot freed last
+        let mut steps: Vec<Step> = Vec::new();
+        for (i, s) in shape.iter().enumerate() {
+            steps.push(Step::Put(fk(i), value_bytes(seed, i as u64, 1, sizes[*s] as usize)));
+        }
+        steps.push(Step::Put(b"keeper".to_vec(), value_bytes(seed, 9, 9, 40)));
+        for i in (0..shape.len()).rev() {
+            steps.push(Step::Del(fk(i)));
+        }
+        jobs.push(seed_job(kt, &p, &steps));
+        for r in requests {
+            let mut st = steps.clone();
+            st.push(Step::Put(b"request".to_vec(), value_bytes(seed, 7, 7, r as usize)));
+            jobs.push(seed_job(kt, &p, &st));
+            cases.push((shape.clone(), r));
+        }
+    }
+    ctx.pool.reinit(vec![]);
+    let results = ctx.pool.map(&jobs, |i| i);
+    let img = |r: &JobResult| -> Option<Image> {
+        if let JobResult::Done(b) = r {
+            let mut rd = Rd::new(b);
+            if rd.u8() == 0 {
+                let _ = rd.string();
+                return Some(Image::unpack(&rd.vec()));
+            }
+        }
+        None
+    };
+    let per = requests.len() + 1;
+    let mut evaluated = 0i64;
+    let mut reused = 0i64;
+    for (si, shape) in shapes.iter().enumerate() {
+        let before = img(&results[si * per]);
+        for (ri, r) in requests.iter().enumerate() {
+            let after = img(&results[si * per + 1 + ri]);
+            evaluated += 1;
+            let label = format!("large free list (head first) of slots for values {:?}, then put of {} bytes", shape.iter().map(|x| sizes[*x]).collect::<Vec<_>>(), r);
+            let mut complain = |key: &str, msg: String| {
+                let mut st: Vec<u8> = Vec::new();
+                st.extend_from_slice(&jobs[si * per + 1 + ri]);
+                ctx.run.violation(crate::report::Violation { prop: "C06".into(), key: key.to_string(), message: format!("{label}: {msg}"), replay: crate::report::Replay { engine: "seed".into(), config: st, case: vec![], story: vec![label.clone(), msg] } });
+            };
+            let (b, a) = match (&before, &after) {
+                (Some(b), Some(a)) => (b, a),
+                _ => {
+                    complain("first-fit:script-fails", "the script does not run to its end".into());
+                    continue;
+                }
+            };
+            let db = crate::decoder::decode(&b.htx, &b.key, &b.val);
+            let da = crate::decoder::decode(&a.htx, &a.key, &a.val);
+            if let Some((c, m)) = db.errors.first().or(da.errors.first()) {
+                complain(&format!("first-fit:decode:{}", c.name()), format!("files do not decode (clause {}): {m}", c.name()));
+                continue;
+            }
+            let need = crate::decoder::value_slot_for(*r);
+            let fits: Vec<u64> = db.valf.free[15].iter().copied().filter(|o| db.valf.slots[o].size as u64 >= need).collect();
+            let grew = da.valf.file_len > db.valf.file_len;
+            if need >= 1024 {
+                if !fits.is_empty() && grew {
+                    complain("first-fit:extended-despite-free-slot", format!("the value file grew from {} to {} bytes although the free slot at {} fits the request of {need} bytes", db.valf.file_len, da.valf.file_len, fits[0]));
+                }
+                if !fits.is_empty() {
+                    reused += 1;
+                }
+                let expect_free = db.valf.free[15].len() - if fits.is_empty() { 0 } else { 1 };
+                if da.valf.free[15].len() != expect_free {
+                    complain("first-fit:free-list-length", format!("the large free list has {} members after the put, {expect_free} expected ({} before)", da.valf.free[15].len(), db.valf.free[15].len()));
+                }
+            }
+        }
+    }
+    ctx.run.add("first_fit_cases", evaluated);
+    ctx.run.add("first_fit_cases_reusing_a_slot", reused);
+    ctx.states += jobs.len() as u64;
+    ctx.transitions += jobs.len() as u64;
+    eprintln!("[C06] first-fit sweep: {} list shapes x {} requests = {evaluated} cases, {reused} reuse a slot", shapes.len(), requests.len());
+    ctx.runs.push(J::obj(vec![
+        ("label", J::s("first-fit sweep: every shape of the shared large free list with 1..4 members over 3 slot sizes (all orders, with repetition) x 5 request sizes; list built and request served by the real code, both images decoded: no growth while a fitting free slot exists, exactly one member leaves the list, partition and tiling hold")),
+        ("shapes", J::Int(shapes.len() as i64)),
+        ("cases", J::Int(evaluated)),
+    ]));
+}
+
 pub fn c06(tier: &str, seed: u64) -> i32 {
     let mut ctx = Ctx::new("C06", tier, seed, "model_checking");
     let clauses = clause_mask(&[Clause::Tiling, Clause::FreeList, Clause::Partition, Clause::Overflow, Clause::Padding]);
@@ -378,6 +526,9 @@ pub fn c06(tier: &str, seed: u64) -> i32 {
         let starts: Vec<Start> = empty_start(&mut ctx, &cfg).into_iter().collect();
         let (cap, secs) = if ctx.thorough() { (1_500_000, 300.0) } else { (60_000, 25.0) };
         run_closure(&mut ctx, &format!("{} [bytes]", a.label), &cfg, starts, cap, secs);
+    }
+    if ctx.run.violations.is_empty() {
+        c06_first_fit_sweep(&mut ctx);
     }
     if ctx.run.violations.is_empty() {
         let specs = vec![
